@@ -14,7 +14,7 @@ typedef st_CircularBuffer cb_t;
 
 static void reset(void) {
   memset(LEDGER, 0, sizeof LEDGER); memset(EV, 0, sizeof EV); memset(DROPCOUNT, 0, sizeof DROPCOUNT);
-  NEXT_FRESH = FRESH0; PANICS = 0; UNWINDING = 0; DOUBLE_DROP = GARBAGE_DROP = GARBAGE_READ = 0; FAULT_KIND = F_NONE; FAULT_AT = 0;
+  NEXT_FRESH = FRESH0; DROP_N = 0; PANICS = 0; UNWINDING = 0; DOUBLE_DROP = GARBAGE_DROP = GARBAGE_READ = 0; FAULT_KIND = F_NONE; FAULT_AT = 0;
 }
 static void mk(cb_t *b, size_t start, size_t size, unsigned char base) {
   memset(b, 0xEE, sizeof *b); b->f0 = size; b->f1 = start;
@@ -60,7 +60,9 @@ static void run(const char *op, size_t start, size_t size, size_t a, size_t bb, 
   print_drops("drops");
   if (have_buf) mir_Drop_for_CircularBuffer_drop(&b);
   print_drops("final");
-  printf("\n");
+  printf(" order=[");
+  for (unsigned i = 0; i < DROP_N && i < 64; i++) printf("%s%u", i ? "," : "", DROP_ORDER[i]);
+  printf("]\n");
 }
 
 int main(void) {
